@@ -320,8 +320,7 @@ func TestVerifC06Calibrate(t *testing.T) {
 		}
 	}
 	rec(nil)
-	t.Logf("C06 calibration: %d schedules up to length %d, %d disagreements, %d witnesses of the recorded defect class", runs, depth, known)
-	_ = bad
+	t.Logf("C06 calibration: %d schedules up to length %d, %d disagreements, %d witnesses of the recorded defect class", runs, depth, bad, known)
 }
 
 func jsonNum(i int) any { return json.Number(fmt.Sprint(i)) }
